@@ -344,5 +344,10 @@ pub fn catch<T>(f: impl FnOnce() -> T) -> Result<T, String> {
 }
 
 pub fn silence_panics() {
+    // GMQ_SHOW_PANICS=1: print where caught panics come from (debugging a replay); silent otherwise
+    if std::env::var("GMQ_SHOW_PANICS").is_ok() {
+        std::panic::set_hook(Box::new(|info| { eprintln!("[caught panic] {info}\n{}", std::backtrace::Backtrace::force_capture()); }));
+        return;
+    }
     std::panic::set_hook(Box::new(|_| {}));
 }
